@@ -150,6 +150,9 @@ func (m *Merger) cat() (rec *sam.Record, err error) {
 		m.readers = m.readers[1:]
 		err = nil
 	}
+	if err != nil {
+		return nil, err
+	}
 	if rec == nil {
 		return m.Read()
 	}
